@@ -193,6 +193,7 @@ func (s *Server) Run(addr string, opt ...Option) error {
 		if err != nil {
 			return fmt.Errorf("%s: unable to create in-memory conn: %w", op, err)
 		}
+		conn.disablePanicRecovery = s.disablePanicRecovery
 		localConnID := connID
 		// Stop holds the read lock from before it cancels the context until
 		// its connWg.Wait() has returned, so under the write lock this
